@@ -486,102 +486,8 @@ Fixpoint mwr_loop (f : cb1) (win : list value) (l : list value) : res (list valu
 
 Definition m_movingWindowRemove (f : cb1) (l : list value) : res (list value) := mwr_loop f [] l.
 
-(* ---------- string methods (on code points; byte offsets where Go counts bytes) ---------- *)
-
-Definition rune_len (c : N) : Z :=
-  (if (c <? 128)%N then 1 else if (c <? 2048)%N then 2 else if (c <? 65536)%N then 3 else 4).
-
-(* strings.Index: BYTE offset of the first occurrence, -1 if there is none *)
-Fixpoint index_of (s p : str) (off : Z) : Z :=
-  if is_prefix p s then off
-  else match s with [] => -1 | c :: s' => index_of s' p (off + rune_len c) end.
-
-(* strings.Split with a non-empty separator *)
-Fixpoint split_go (sep : str) (skip : nat) (cur : str) (s : str) : list str :=
-  match s with
-  | [] => [rev cur]
-  | c :: s' =>
-      match skip with
-      | S k => split_go sep k cur s'
-      | O => if is_prefix sep s then rev cur :: split_go sep (length sep - 1) [] s'
-             else split_go sep 0 (c :: cur) s'
-      end
-  end.
-
-Definition str_split (s sep : str) : list str :=
-  match sep with
-  | [] => map (fun c => [c]) s           (* explode into code points; "" gives no item at all *)
-  | _ => split_go sep 0 [] s
-  end.
-
-(* strings.Replace(s, old, new, -1) *)
-Fixpoint replace_go (old new : str) (skip : nat) (s : str) : str :=
-  match s with
-  | [] => []
-  | c :: s' =>
-      match skip with
-      | S k => replace_go old new k s'
-      | O => if is_prefix old s then new ++ replace_go old new (length old - 1) s'
-             else c :: replace_go old new 0 s'
-      end
-  end.
-
-Definition str_replace (s old new : str) : str :=
-  match old with
-  | [] => new ++ flat_map (fun c => c :: new) s
-  | _ => replace_go old new 0 s
-  end.
-
-(* String.Cut (after the repair: an empty receiver gives ""): skip p code points, then take n,
-   n <= 0 takes the rest *)
-Definition str_cut (s : str) (p n : Z) : str :=
-  match s with
-  | [] => []
-  | _ =>
-      let s1 := if p <=? 0 then s
-                else if Z.of_nat (length s) <=? p then [] else skipn (Z.to_nat p) s in
-      if n <=? 0 then s1
-      else if Z.of_nat (length s1) <=? n then s1 else firstn (Z.to_nat n) s1
-  end.
-
-Definition is_ascii (s : str) : bool := forallb (fun c => (c <? 128)%N) s.
-Definition is_space (c : N) : bool := ((9 <=? c) && (c <=? 13) || (c =? 32))%N.
-
-Fixpoint trim_left (s : str) : str :=
-  match s with c :: r => if is_space c then trim_left r else s | [] => [] end.
-
-(* strings.TrimSpace / ToLower / ToUpper: modelled on ASCII strings only *)
-Definition str_trim (s : str) : res str :=
-  if is_ascii s then Ok (rev (trim_left (rev (trim_left s)))) else Unsup.
-Definition str_lower (s : str) : res str :=
-  if is_ascii s then Ok (map (fun c => if (65 <=? c) && (c <=? 90) then c + 32 else c)%N s) else Unsup.
-Definition str_upper (s : str) : res str :=
-  if is_ascii s then Ok (map (fun c => if (97 <=? c) && (c <=? 122) then c - 32 else c)%N s) else Unsup.
-
-(* strconv.Atoi: [+-]digits, value in int64 *)
-Fixpoint parse_digits (s : str) (acc : Z) : option Z :=
-  match s with
-  | [] => Some acc
-  | c :: r => if ((48 <=? c) && (c <=? 57))%N then parse_digits r (acc * 10 + (Z.of_N c - 48)) else None
-  end.
-
-(* the optional sign in front of a numeral: (negative?, rest) *)
-Definition split_sign (s : str) : bool * str :=
-  match s with
-  | c :: r => if (c =? 45)%N then (true, r) else if (c =? 43)%N then (false, r) else (false, s)
-  | [] => (false, [])
-  end.
-
-Definition str_to_int (s : str) : res value :=
-  let '(neg, ds) := split_sign s in
-  match ds with
-  | [] => Err None
-  | _ => match parse_digits ds 0 with
-         | Some z => let v := if neg then - z else z in
-                     if in_int64 v then Ok (VInt v) else Err None
-         | None => Err None
-         end
-  end.
+(* ---------- string methods: moved to Sem/StrLib.v (exported by Sem/Lib.v), where the semantic core
+   of C01/C02/C05 uses the very same functions ---------- *)
 
 (* strconv.ParseFloat(s, 64) on plain decimal numerals  [+-] digits [. digits] [(e|E) [+-] digits]
    (at least one mantissa digit, at least one exponent digit, nothing before or behind).
